@@ -357,4 +357,114 @@ example : ((exec (memmove_s 100 4 102 4 none none)
       { data := fun _ => 7, mapped := fun _ => true, rd := fun _ => true, wr := fun _ => true }).toOption.map
         (fun x => (x.1, x.2.events))) = some (memmoveCode 100 4 102 4, []) := by decide
 
+/-! ## memzero16_s, memzero32_s: `len` in elements; the byte size `len * 2` / `len * 4` is computed without an
+overflow check (known finding `mem-size-multiplication-wraps`) -/
+
+/-- src/extmem/memzero16_s.c: `@retval EOK when operation is successful`, `ESNULLP when dest is NULL POINTER`,
+`ESZEROL when len = ZERO`, `ESLEMAX when len > RSIZE_MAX_MEM16` -/
+def memzero16Code (dest len : Nat) : Nat :=
+  if dest = 0 then ESNULLP
+  else if len = 0 then ESZEROL
+  else if len > RSIZE_MAX_MEM16 then ESLEMAX
+  else EOK
+
+/- FULL statement, false of the code (`memzero16_s_meaning_witness`):
+   ∀ dest len, EV (memzero16_s dest len none) (Is .mem (memzero16Code dest len)) -/
+theorem memzero16_s_code_partial (dest len : Nat) (hl : len < 2 ^ 63) :
+    EV (memzero16_s dest len none) (Is .mem (memzero16Code dest len)) := by
+  have hd : (len * 2) % U64 = len * 2 := Nat.mod_eq_of_lt (by unfold U64; omega)
+  have hm : RSIZE_MAX_MEM = 2 * RSIZE_MAX_MEM16 := by decide
+  by_cases h1 : dest = 0
+  · simp only [memzero16_s, memzero16Code, h1, if_true]; exact is_failM _ (by decide)
+  by_cases h2 : len = 0
+  · simp only [memzero16_s, memzero16Code, h1, h2, if_true, if_false]; exact is_failM _ (by decide)
+  have h2' : ¬ len * 2 = 0 := by omega
+  by_cases h3 : len > RSIZE_MAX_MEM16
+  · have h3' : len * 2 > RSIZE_MAX_MEM := by omega
+    simp only [memzero16_s, memzero16Code, chkDmaxMemB, hd, h1, h2, h2', h3, h3', if_true, if_false]
+    exact is_failM _ (by decide)
+  · have h3' : ¬ len * 2 > RSIZE_MAX_MEM := by omega
+    simp only [memzero16_s, memzero16Code, chkDmaxMemB, hd, h1, h2, h2', h3, h3', if_false]
+    exact is_work_eok (q_mem_prim_set16 _ _ _)
+
+/-- memzero16_s, object size unknown, element count below 2^63: the code is `memzero16Code` of the arguments -/
+theorem memzero16_s_meaning_partial (dest len : Nat) (hl : len < 2 ^ 63) (st : St) (r : Nat) (st' : St)
+    (he : exec (memzero16_s dest len none) st = .ok (r, st')) :
+    r = memzero16Code dest len ∧
+      ((r = EOK ∧ st'.events = st.events) ∨ (r ≠ EOK ∧ st'.events = st.events ++ [.handler .mem r])) :=
+  Is.sound (memzero16_s_code_partial dest len hl) st r st' he
+
+/-- the excluded point: `memzero16_s(d, 2^63 + 1)`: `len * 2` wraps to 2, the call returns EOK without a report although
+`len > RSIZE_MAX_MEM16` (doc comment: ESLEMAX) -/
+theorem memzero16_s_meaning_witness :
+    ((exec (memzero16_s 100 (2 ^ 63 + 1) none)
+      { data := fun _ => 7, mapped := fun _ => true, rd := fun _ => true, wr := fun _ => true }).toOption.map
+        (fun x => (x.1, x.2.events))) = some (EOK, []) ∧ memzero16Code 100 (2 ^ 63 + 1) = ESLEMAX := by
+  decide
+
+theorem memzero16Code_eok_iff (dest len : Nat) :
+    memzero16Code dest len = EOK ↔ dest ≠ 0 ∧ len ≠ 0 ∧ len ≤ RSIZE_MAX_MEM16 := by
+  have e1 : ESNULLP ≠ EOK := by decide
+  have e2 : ESLEMAX ≠ EOK := by decide
+  have e3 : ESZEROL ≠ EOK := by decide
+  unfold memzero16Code
+  repeat' split
+  all_goals simp only [e1, e2, e3, false_iff, true_iff, not_and, not_or, ne_eq]
+  all_goals omega
+
+/-- src/extmem/memzero32_s.c: as memzero16_s with `RSIZE_MAX_MEM32` -/
+def memzero32Code (dest len : Nat) : Nat :=
+  if dest = 0 then ESNULLP
+  else if len = 0 then ESZEROL
+  else if len > RSIZE_MAX_MEM32 then ESLEMAX
+  else EOK
+
+/- FULL statement, false of the code (`memzero32_s_meaning_witness`):
+   ∀ dest len, EV (memzero32_s dest len none) (Is .mem (memzero32Code dest len)) -/
+theorem memzero32_s_code_partial (dest len : Nat) (hl : len < 2 ^ 62) :
+    EV (memzero32_s dest len none) (Is .mem (memzero32Code dest len)) := by
+  have hd : (len * 4) % U64 = len * 4 := Nat.mod_eq_of_lt (by unfold U64; omega)
+  have hm : RSIZE_MAX_MEM = 4 * RSIZE_MAX_MEM32 := by decide
+  by_cases h1 : dest = 0
+  · simp only [memzero32_s, memzero32Code, h1, if_true]; exact is_failM _ (by decide)
+  by_cases h2 : len = 0
+  · simp only [memzero32_s, memzero32Code, h1, h2, if_true, if_false]; exact is_failM _ (by decide)
+  have h2' : ¬ len * 4 = 0 := by omega
+  by_cases h3 : len > RSIZE_MAX_MEM32
+  · have h3' : len * 4 > RSIZE_MAX_MEM := by omega
+    simp only [memzero32_s, memzero32Code, chkDmaxMemB, hd, h1, h2, h2', h3, h3', if_true, if_false]
+    exact is_failM _ (by decide)
+  · have h3' : ¬ len * 4 > RSIZE_MAX_MEM := by omega
+    simp only [memzero32_s, memzero32Code, chkDmaxMemB, hd, h1, h2, h2', h3, h3', if_false]
+    exact is_work_eok (q_mem_prim_set32 _ _ _)
+
+/-- memzero32_s, object size unknown, element count below 2^62: the code is `memzero32Code` of the arguments -/
+theorem memzero32_s_meaning_partial (dest len : Nat) (hl : len < 2 ^ 62) (st : St) (r : Nat) (st' : St)
+    (he : exec (memzero32_s dest len none) st = .ok (r, st')) :
+    r = memzero32Code dest len ∧
+      ((r = EOK ∧ st'.events = st.events) ∨ (r ≠ EOK ∧ st'.events = st.events ++ [.handler .mem r])) :=
+  Is.sound (memzero32_s_code_partial dest len hl) st r st' he
+
+/-- the excluded point: `memzero32_s(d, 2^62 + 1)`: `len * 4` wraps to 4 → EOK, no report (doc comment: ESLEMAX) -/
+theorem memzero32_s_meaning_witness :
+    ((exec (memzero32_s 100 (2 ^ 62 + 1) none)
+      { data := fun _ => 7, mapped := fun _ => true, rd := fun _ => true, wr := fun _ => true }).toOption.map
+        (fun x => (x.1, x.2.events))) = some (EOK, []) ∧ memzero32Code 100 (2 ^ 62 + 1) = ESLEMAX := by
+  decide
+
+theorem memzero32Code_eok_iff (dest len : Nat) :
+    memzero32Code dest len = EOK ↔ dest ≠ 0 ∧ len ≠ 0 ∧ len ≤ RSIZE_MAX_MEM32 := by
+  have e1 : ESNULLP ≠ EOK := by decide
+  have e2 : ESLEMAX ≠ EOK := by decide
+  have e3 : ESZEROL ≠ EOK := by decide
+  unfold memzero32Code
+  repeat' split
+  all_goals simp only [e1, e2, e3, false_iff, true_iff, not_and, not_or, ne_eq]
+  all_goals omega
+
+/-- non-vacuity of the partial statements: a reporting run within the hypothesis -/
+example : (3 : Nat) < 2 ^ 63 ∧ ((exec (memzero16_s 0 3 none)
+      { data := fun _ => 7, mapped := fun _ => true, rd := fun _ => true, wr := fun _ => true }).toOption.map
+        (fun x => (x.1, x.2.events))) = some (memzero16Code 0 3, [.handler .mem ESNULLP]) := by decide
+
 end SafeC.Props.C05Meaning
